@@ -3,7 +3,8 @@
 
    Implementation-shaped model of one ClientSession request ("v", the victim) with
    total / connect / sock_connect / sock_read timeouts and one request without
-   timeouts ("b", the bystander) sharing the connector pool (Limit 1 or 2) and the
+   timeouts ("b", the bystander; Bys = {"b", "c"} adds a second one, so that a DNS lookup can
+   have an initiator and two joiners) sharing the connector pool (Limit 1, 2 or 3) and the
    DNS key, under virtual time.  One action (Run) pops one handle of asyncio's
    FIFO ready queue; a task step is the code between two awaits:
 
@@ -40,6 +41,8 @@
      NestedUncancel  every nested TimerContext.__exit__ level calls task.uncancel()
                      (as coded; FALSE = repaired: the timer's own cancel request is
                       balanced once - see proposed_fixes/C18-nested-timer-uncancel.diff)
+     JoinerOwnFuture every request joining an in-flight DNS lookup parks on its own future
+     ArmOnEarlyData  response bytes arriving before the request was written arm the sock_read timer
      RearmChecksEof  FALSE = as coded: resume_reading() re-arms the sock_read timer even when
                      resuming the parser just completed the payload and released the
                      connection to the pool; TRUE = repaired
@@ -54,7 +57,8 @@ EXTENDS Naturals, Sequences, FiniteSets, TLC
 CONSTANTS Limit, TOtotal, TOconnect, TOsockc, TOread, Thr, Offset, Horizon,
           Body, Expect100, AllowCancel, AllowPause, MaxPartial, BigChunk,
           ShieldDns, CloseOnFail, CancelWriter, RearmOnResume, Handoff,
-          TimerCoversBody, NestedUncancel, RearmChecksEof,
+          TimerCoversBody, NestedUncancel, RearmChecksEof, JoinerOwnFuture,
+          Bys, EarlyResponse, ArmOnEarlyData,
           Scripted, StallsTotal, StallsConnect, StallsSockc, StallsRead, MaxCancelAt, Orders
 
 \* ClientTimeout.__post_init__ raises `total` to the largest specific timeout (CHANGES/7274.feature)
@@ -62,13 +66,14 @@ ASSUME Scripted \/ TOtotal = 0 \/ (TOtotal >= TOconnect /\ TOtotal >= TOsockc /\
 
 VARIABLES s, scn
 
-Reqs == {"v", "b"}
+Reqs == {"v"} \cup Bys          \* Bys: the bystanders, {"b"} or {"b", "c"}
+TasksAll == Reqs \cup {"w", "r"}
+BySeq == IF "c" \in Bys THEN <<"b", "c">> ELSE <<"b">>
 T(t) == <<"task", t>>
 Ph(q) == <<"ph", q>>
 Co(c) == <<"co", c>>
 ConnectPhases == {"PoolWait", "DnsOwn", "DnsWait", "SockConnect", "ConnMade"}
 PreConn == {"new", "start", "PoolWait", "DnsOwn", "DnsWait", "SockConnect"}
-Other(q) == IF q = "v" THEN "b" ELSE "v"
 Range(f) == {f[i] : i \in DOMAIN f}
 
 Ceil2(t) == IF t % 2 = 0 THEN t ELSE t + 1
@@ -79,10 +84,10 @@ Dec(c) == IF c > 0 THEN c - 1 ELSE 0
 
 Init0 ==
     [now |-> Offset, ready |-> <<>>, boundary |-> TRUE,
-     pc |-> [t \in {"v", "b", "w", "r"} |-> IF t \in Reqs THEN "new" ELSE "none"],
-     fut |-> [t \in {"v", "b", "w", "r"} |-> "none"],
-     mustCancel |-> [t \in {"v", "b", "w", "r"} |-> FALSE],
-     cancelling |-> [t \in {"v", "b", "w", "r"} |-> 0],
+     pc |-> [t \in TasksAll |-> IF t \in Reqs THEN "new" ELSE "none"],
+     fut |-> [t \in TasksAll |-> "none"],
+     mustCancel |-> [t \in TasksAll |-> FALSE],
+     cancelling |-> [t \in TasksAll |-> 0],
      timers |-> {}, tmFired |-> FALSE, ctxExp |-> [connect |-> FALSE, sockc |-> FALSE],
      acquired |-> {}, idle |-> <<>>, waiters |-> <<>>,
      conn |-> [q \in Reqs |-> "none"], dirty |-> [q \in Reqs |-> FALSE],
@@ -93,7 +98,7 @@ Init0 ==
      mq |-> [q \in Reqs |-> <<>>], buf |-> [q \in Reqs |-> FALSE], eof |-> [q \in Reqs |-> FALSE],
      rexc |-> FALSE, rdPaused |-> FALSE, tailEof |-> FALSE, vconn |-> "none", contSent |-> FALSE, dataSent |-> FALSE, nPartial |-> 0,
      outcome |-> [q \in Reqs |-> "none"], endAt |-> [q \in Reqs |-> 0], startAt |-> [q \in Reqs |-> 0],
-     cancelReq |-> FALSE, sockRef |-> 0, readRef |-> 0, faultConn |-> "none",
+     cancelReq |-> FALSE, sockRef |-> 0, readRef |-> 0, anyData |-> FALSE, faultConn |-> "none",
      fired |-> {}, vsteps |-> 0]
 
 StallKinds ==     \* scripted mode: which timeout is configured x where the environment stalls
@@ -131,8 +136,18 @@ CancelPlain(x, t) ==
          THEN [x1 EXCEPT !.fut[t] = "cancelled", !.ready = Append(@, T(t))]
          ELSE [x1 EXCEPT !.mustCancel[t] = TRUE]
 
+RECURSIVE CancelJoiners(_, _)
+CancelJoiners(x, qs) ==       \* mutant JoinerOwnFuture = FALSE: the joiners of a lookup share one future
+    IF qs = {} THEN x
+    ELSE LET q == CHOOSE y \in qs : TRUE
+         IN CancelJoiners(IF x.fut[q] = "pending"
+                          THEN [x EXCEPT !.fut[q] = "cancelled", !.ready = Append(@, T(q))] ELSE x, qs \ {q})
+
 CancelTask(x, t) ==
-    LET x1 == CancelPlain(x, t) IN
+    LET x0 == CancelPlain(x, t)
+        x1 == IF ~JoinerOwnFuture /\ Live(x, t) /\ x.fut[t] = "pending" /\ x.pc[t] = "DnsWait"
+              THEN CancelJoiners(x0, x.throttle \ {t}) ELSE x0
+    IN
     IF Live(x, t) /\ x.fut[t] = "pending" /\ x.pc[t] = "DnsOwn"
     THEN \* the outer future of shield() is cancelled; its done-callback detaches from the inner task
          IF ShieldDns THEN [x1 EXCEPT !.shieldOn = FALSE]
@@ -164,6 +179,12 @@ Resched(x, q) ==              \* _reschedule_timeout(): plain call_later, no cei
     THEN [AddTimer(x, "read", x.now + TR) EXCEPT !.readRef = x.now]
     ELSE x
 DropRead(x, q) == IF q = "v" THEN DropTimer(x, "read") ELSE x
+\* data_received(): bytes of the victim's response arrive (ghost: readRef / anyData) and push the
+\* sock_read deadline back; mutant ArmOnEarlyData = FALSE: only once the request was written
+DataArrived(x, q) ==
+    IF q # "v" THEN x
+    ELSE LET x1 == [x EXCEPT !.readRef = x.now, !.anyData = TRUE] IN
+         IF TR > 0 /\ (ArmOnEarlyData \/ x.written["v"]) THEN AddTimer(x1, "read", x.now + TR) ELSE x1
 
 (* ------------------------------------------------------------------------- *)
 (* leaving a request by an exception                                           *)
@@ -217,9 +238,9 @@ WriterDone(x) ==              \* write_eof(); protocol.start_timeout()
 Send(x, q) ==                 \* set_response_params, req._send(conn), resp.start(conn)
     LET x0 == [x EXCEPT !.pc[q] = "AwaitHeaders", !.fut[q] = "pending",
                         !.vconn = IF q = "v" THEN x.holds["v"] ELSE @] IN
-    IF q = "b"            \* start_timeout() with read_timeout None cancels a handle left on the protocol
-    THEN LET x1 == [x0 EXCEPT !.written["b"] = TRUE] IN
-         IF x.holds["b"] = x.vconn THEN DropTimer(x1, "read") ELSE x1
+    IF q # "v"            \* start_timeout() with read_timeout None cancels a handle left on the protocol
+    THEN LET x1 == [x0 EXCEPT !.written[q] = TRUE] IN
+         IF x.holds[q] = x.vconn THEN DropTimer(x1, "read") ELSE x1
     ELSE IF ~(Body # "none" \/ Expect100 \/ x.wpaused)
          THEN Resched([x0 EXCEPT !.written["v"] = TRUE], "v")            \* start_timeout(); set_eof()
          ELSE IF Expect100                                                 \* eager writer task
@@ -404,26 +425,35 @@ Dispatch(x, e) ==
 (* ------------------------------------------------------------------------- *)
 (* the scripted environment                                                    *)
 VDone(x) == x.pc["v"] = "done"
-First == IF scn.order = "vb" THEN "v" ELSE "b"
+StartSeq == IF scn.order = "vb" THEN <<"v">> \o BySeq ELSE <<"b", "v">> \o Tail(BySeq)
+First == StartSeq[1]
+NextNew(x) == LET is == {i \in 1..Len(StartSeq) : x.pc[StartSeq[i]] = "new"}
+              IN IF is = {} THEN "" ELSE StartSeq[CHOOSE i \in is : \A j \in is : i <= j]
+ByWith(x, P(_)) == LET is == {i \in 1..Len(BySeq) : P(BySeq[i])}
+                   IN IF is = {} THEN "" ELSE BySeq[CHOOSE i \in is : \A j \in is : i <= j]
 SockPending(x, q) == x.pc[q] = "SockConnect" /\ x.fut[q] = "pending"
 HasConn(x, q) == x.holds[q] # "none" /\ x.pc[q] \in {"AwaitHeaders", "BodyRead"}
                /\ x.conn[x.holds[q]] = "open"
 
+\* the victim's peer answers once the request was written - or, EarlyResponse, while the upload is
+\* still blocked in drain() (early response)
+Sent(x) == x.written["v"] \/ (EarlyResponse /\ x.pc["w"] = "drain")
+
 CanDeliver(x, q, part) ==
     /\ HasConn(x, q)
     /\ CASE part = "cont" -> q = "v" /\ Expect100 /\ ~x.contSent /\ x.rsp[q] = "none" /\ x.pc["w"] = "cont100"
-         [] part = "partial" -> q = "v" /\ x.written[q] /\ x.rsp[q] = "none" /\ x.nPartial < MaxPartial
-         [] part = "head" -> x.written[q] /\ x.rsp[q] = "none" /\ q = "v"
+         [] part = "partial" -> q = "v" /\ Sent(x) /\ x.rsp[q] = "none" /\ x.nPartial < MaxPartial
+         [] part = "head" -> Sent(x) /\ x.rsp[q] = "none" /\ q = "v"
          [] part = "qpart" -> q = "v" /\ x.rsp[q] = "head" /\ x.nPartial < MaxPartial /\ ~x.rdPaused
          [] part = "data" -> q = "v" /\ x.rsp[q] = "head" /\ ~x.dataSent /\ ~x.rdPaused
-         [] part = "rest" -> q = "v" /\ x.rsp[q] = "head" /\ ~x.rdPaused
+         [] part = "rest" -> q = "v" /\ x.rsp[q] = "head" /\ ~x.rdPaused /\ x.written[q]   \* the end only after the upload
          [] part = "all" -> x.written[q] /\ x.rsp[q] = "none"
          [] OTHER -> FALSE
 
 VScript(x) ==      \* the next delivery the scenario's peer makes to the victim ("" = stalls)
     LET st == scn.stall IN
-    IF st \in {"partial", "none", "wresume"} /\ CanDeliver(x, "v", "partial") /\ x.nPartial = 0 THEN "partial"
-    ELSE IF st \in {"body", "qpart", "data", "none", "wresume"} /\ CanDeliver(x, "v", "head") THEN "head"
+    IF st \in {"partial", "none", "wresume", "earlyp"} /\ CanDeliver(x, "v", "partial") /\ x.nPartial = 0 THEN "partial"
+    ELSE IF st \in {"body", "qpart", "data", "none", "wresume", "earlyh"} /\ CanDeliver(x, "v", "head") THEN "head"
     ELSE IF st = "qpart" /\ CanDeliver(x, "v", "qpart") /\ x.nPartial = 0 THEN "qpart"
     ELSE IF st \in {"data", "none", "wresume"} /\ CanDeliver(x, "v", "data") THEN "data"
     ELSE IF st \in {"none", "wresume"} /\ x.dataSent /\ CanDeliver(x, "v", "rest") THEN "rest"
@@ -431,18 +461,19 @@ VScript(x) ==      \* the next delivery the scenario's peer makes to the victim 
 
 Due(x) ==
     IF x.pc[First] = "new" THEN <<"Start", First>>
-    ELSE IF x.pc[Other(First)] = "new" /\ (scn.order # "hold" \/ HasConn(x, First))
-         THEN <<"Start", Other(First)>>
-    ELSE IF scn.stall \in {"write", "wresume"} /\ AllowPause /\ ~x.pauseNext /\ x.pc["v"] \in PreConn /\ x.pc["v"] # "new"
+    ELSE IF NextNew(x) # "" /\ (scn.order # "hold" \/ HasConn(x, First))
+         THEN <<"Start", NextNew(x)>>
+    ELSE IF scn.stall \in {"write", "wresume", "earlyp", "earlyh"} /\ AllowPause /\ ~x.pauseNext /\ x.pc["v"] \in PreConn /\ x.pc["v"] # "new"
          THEN <<"PauseNext">>
     ELSE IF x.pc["r"] = "resolving" /\ x.fut["r"] = "pending" /\ (scn.stall # "dns" \/ VDone(x))
          THEN <<"DnsDone">>
-    ELSE IF SockPending(x, "b") THEN <<"SockDone", "b">>
+    ELSE IF ByWith(x, LAMBDA q : SockPending(x, q)) # "" THEN <<"SockDone", ByWith(x, LAMBDA q : SockPending(x, q))>>
     ELSE IF SockPending(x, "v") /\ scn.stall # "sock" THEN <<"SockDone", "v">>
     ELSE IF x.wpaused /\ x.pc["w"] = "drain" /\ scn.stall = "wresume" THEN <<"ResumeWriting">>
     ELSE IF CanDeliver(x, "v", "cont") /\ scn.stall # "cont" THEN <<"Deliver", "v", "cont">>
     ELSE IF VScript(x) # "" THEN <<"Deliver", "v", VScript(x)>>
-    ELSE IF CanDeliver(x, "b", "all") /\ (scn.stall # "pool" \/ VDone(x)) THEN <<"Deliver", "b", "all">>
+    ELSE IF ByWith(x, LAMBDA q : CanDeliver(x, q, "all")) # "" /\ (scn.stall # "pool" \/ VDone(x))
+         THEN <<"Deliver", ByWith(x, LAMBDA q : CanDeliver(x, q, "all")), "all">>
     ELSE IF x.now < Horizon THEN <<"Tick">> ELSE <<"Nothing">>
 
 CancelDue(x) ==
@@ -486,7 +517,7 @@ WakeReader(x, q, p) ==
 
 Deliver(q, part) ==           \* ResponseHandler.data_received
     /\ Env(<<"Deliver", q, part>>) /\ CanDeliver(s, q, part)
-    /\ LET x == Resched(s, q) IN
+    /\ LET x == DataArrived(s, q) IN
        s' = CASE part = "partial" -> [x EXCEPT !.nPartial = @ + 1]
               [] part = "qpart" -> [x EXCEPT !.nPartial = @ + 1]
               [] part = "cont" -> WakeReader([x EXCEPT !.contSent = TRUE, !.mq[q] = Append(@, "cont")], q, "AwaitHeaders")
@@ -560,7 +591,7 @@ BoundedTotal == (TT > 0 /\ VPending) => s.now <= Deadline(s.startAt["v"], TT)
 BoundedConnect == (TC > 0 /\ s.pc["v"] \in ConnectPhases) => s.now <= Deadline(s.startAt["v"], TC)
 BoundedSockConnect == (TS > 0 /\ s.pc["v"] \in {"SockConnect", "ConnMade"}) => s.now <= Deadline(s.sockRef, TS)
 BoundedSockRead ==
-    (TR > 0 /\ s.pc["v"] \in {"AwaitHeaders", "BodyRead"} /\ s.written["v"] /\ ~s.rdPaused)
+    (TR > 0 /\ s.pc["v"] \in {"AwaitHeaders", "BodyRead"} /\ (s.written["v"] \/ s.anyData) /\ ~s.rdPaused)
         => s.now <= Deadline(s.readRef, TR)
 Bounded == BoundedTotal /\ BoundedConnect /\ BoundedSockConnect /\ BoundedSockRead
 
@@ -603,14 +634,15 @@ NoResidueButRearm ==
 
 \* BystanderUnharmed: never cancelled / failed, and not left waiting for a slot that is free
 BystanderUnharmed ==
-    /\ s.outcome["b"] \in {"none", "ok"}
-    /\ (s.ready = <<>> /\ s.pc["b"] = "PoolWait" /\ s.fut["b"] = "pending") => Avail(s) <= 0
-    /\ (s.ready = <<>> /\ s.pc["b"] = "DnsWait" /\ s.fut["b"] = "pending") => s.pc["r"] = "resolving"
-    /\ (s.ready = <<>> /\ s.pc["b"] = "DnsOwn" /\ s.fut["b"] = "pending") => s.pc["r"] = "resolving"
+    \A b \in Bys :
+        /\ s.outcome[b] \in {"none", "ok"}
+        /\ (s.ready = <<>> /\ s.pc[b] = "PoolWait" /\ s.fut[b] = "pending") => Avail(s) <= 0
+        /\ (s.ready = <<>> /\ s.pc[b] = "DnsWait" /\ s.fut[b] = "pending") => s.pc["r"] = "resolving"
+        /\ (s.ready = <<>> /\ s.pc[b] = "DnsOwn" /\ s.fut[b] = "pending") => s.pc["r"] = "resolving"
 
 \* SessionUsable: when both are over, a follow-up finds every slot free and only clean connections
 SessionUsable ==
-    (s.pc["v"] = "done" /\ s.pc["b"] = "done" /\ s.ready = <<>>) =>
+    ((\A q \in Reqs : s.pc[q] = "done") /\ s.ready = <<>>) =>
         /\ s.acquired = {} /\ s.waiters = <<>>
         /\ \A i \in 1..Len(s.idle) : s.conn[s.idle[i]] = "open" /\ ~s.dirty[s.idle[i]]
 
